@@ -49,7 +49,7 @@ func runC15(cfg *vh.Config) error {
 	var cases []*c15case
 	invalid := 0
 	for len(cases) < n && invalid < 10*n+100 {
-		prof := descgen.Profile{MaxFiles: 3, Supported: true, Comments: r.Chance(40)}
+		prof := descgen.Profile{MaxFiles: 3, Supported: true, Comments: r.Chance(40), CrossPkg: len(cases)%3 == 1}
 		if len(cases)%8 == 7 {
 			prof.Supported, prof.Wild = false, 5
 		}
@@ -65,18 +65,59 @@ func runC15(cfg *vh.Config) error {
 			return terr
 		}
 		pkgSeen := map[string]bool{}
-		var pkgs []string
+		var allPkgs []string
 		for _, f := range c.Gen {
 			p := imagePackage(f.GetPackage())
 			if !pkgSeen[p] {
 				pkgSeen[p] = true
-				pkgs = append(pkgs, p)
+				allPkgs = append(allPkgs, p)
 			}
 		}
-		sort.Strings(pkgs)
+		sort.Strings(allPkgs)
+		// the image lists some of the packages; the others (and their sub-packages) are
+		// reached only through references: "indirect" packages of the API
+		pkgs := allPkgs
+		first := imagePackage(c.Gen[0].GetPackage())
+		if prof.CrossPkg && len(allPkgs) > 1 && r.Chance(70) {
+			// list everything but the package of the first file: it (often a sub-package) is then
+			// reached only through references from the listed ones
+			pkgs = nil
+			for _, p := range allPkgs {
+				if p != first {
+					pkgs = append(pkgs, p)
+				}
+			}
+			c.Tags["image-with-unlisted-packages"]++
+			if c.Gen[0].GetPackage() != first {
+				c.Tags["unlisted-sub-package-first"]++
+			}
+		} else if len(allPkgs) > 1 && r.Chance(60) {
+			pkgs = nil
+			for _, p := range allPkgs {
+				if r.Chance(50) {
+					pkgs = append(pkgs, p)
+				}
+			}
+			if len(pkgs) == 0 {
+				pkgs = allPkgs[:1]
+			}
+			if len(pkgs) < len(allPkgs) {
+				c.Tags["image-with-unlisted-packages"]++
+			}
+		}
+		// the files APIFromImage's selector includes: package name has a listed prefix
+		var included []string
+		for _, f := range c.Gen {
+			for _, p := range pkgs {
+				if strings.HasPrefix(f.GetPackage(), p) {
+					included = append(included, f.GetName())
+					break
+				}
+			}
+		}
 		id := len(cases)
 		cases = append(cases, &c15case{id: id, c: c, term: term, collides: splitCollision(files), req: &Request{
-			ID: id, Prop: "C15", SetB64: base64.StdEncoding.EncodeToString(b), GenPaths: c.GenPaths(), Packages: pkgs,
+			ID: id, Prop: "C15", SetB64: base64.StdEncoding.EncodeToString(b), GenPaths: included, Packages: pkgs,
 		}})
 		for t, k := range c.Tags {
 			res.Distribution["feature:"+t] += k
@@ -143,6 +184,13 @@ func runC15(cfg *vh.Config) error {
 						return fmt.Errorf("case %d: %s", c.id, o.Extra)
 					}
 				}
+			case "exportloss":
+				if bad {
+					fail(fmt.Sprintf("C15 SchemaSetFromFiles / ToJ5Root -> %s in %s: %s", o.Class, o.Site, normMsg(o.Msg)), "exporting the reflected schemas", o.Msg)
+				}
+				for _, v := range o.Viol {
+					fail("C15 the export of a reflected schema differs from the schema object (member lost or changed by ToJ5Root / ToJ5Field)", "no rule, enum option info, entity marker, any-membership or list rule is lost", v)
+				}
 			case "import":
 				ci = classN[o.Class]
 				if bad {
@@ -170,7 +218,7 @@ func runC15(cfg *vh.Config) error {
 				}
 			}
 		}
-		cf.Terms = append(cf.Terms, fmt.Sprintf("C15Case\n  %s\n  %s\n  %d %s\n  %d %s", c.term, listStr(c.c.GenPaths()), ce, first, ci, second))
+		cf.Terms = append(cf.Terms, fmt.Sprintf("C15Case\n  %s\n  %s\n  %d %s\n  %d %s", c.term, listStr(c.req.GenPaths), ce, first, ci, second))
 		res.Cases = append(res.Cases, vh.CaseRec{Case: c.id, Stream: "roundtrip", Input: input, Impl: summarize(obs[c.id])})
 		if c.id < 3 {
 			res.Sample(map[string]any{"files": c.c.GenPaths(), "features": c.c.Tags, "observed": summarize(obs[c.id])}, 3)
